@@ -118,6 +118,9 @@ def check_log(log):
             for key, got in qn:
                 if got != FOREIGN_QNAMES[key]:
                     bad.append(("foreign-attribute-qname", "%r -> %r" % (key, got)))
+                elif isinstance(got, str) and ":" in got and bound.get(got.split(":", 1)[0]) != key[0]:
+                    # the prefix written in the attribute's qualified name must be one the stream has declared, for that namespace
+                    bad.append(("foreign-attribute-prefix-not-declared", "%r has qname %r but prefix is bound to %r" % (key, got, bound.get(got.split(":", 1)[0]))))
         elif k == "endElementNS":
             if not stack:
                 bad.append(("end-without-start", repr(e)))
